@@ -72,7 +72,7 @@ def main():
         else: dirs.append(args[i])
         i += 1
     allres = []
-    with cf.ThreadPoolExecutor(8) as ex:
+    with cf.ThreadPoolExecutor(int(os.environ.get("TRY_JOBS", "8"))) as ex:
         for r in ex.map(lambda d: one(d, demo, checks), dirs):
             allres.append(r)
             tag = "CAUGHT" if r.get("fired") else ("NOAPPLY" if not r.get("applies") else "missed")
